@@ -411,7 +411,34 @@ impl PanicInfo {
                 out.push(c);
             }
         }
-        vp_core::truncate(&out, 100)
+        // collapse bracketed number lists ("[N, N, N]" and "[]" alike) so that the rank does not matter
+        let mut out2 = String::new();
+        let mut chars = out.chars().peekable();
+        while let Some(c) = chars.next() {
+            if c == '[' {
+                let mut inner = String::new();
+                let mut closed = false;
+                for d in chars.by_ref() {
+                    if d == ']' {
+                        closed = true;
+                        break;
+                    }
+                    inner.push(d);
+                }
+                if closed && inner.chars().all(|x| x == 'N' || x == ',' || x == ' ') {
+                    out2.push_str("[..]");
+                } else {
+                    out2.push('[');
+                    out2.push_str(&inner);
+                    if closed {
+                        out2.push(']');
+                    }
+                }
+            } else {
+                out2.push(c);
+            }
+        }
+        vp_core::truncate(&out2, 100)
     }
     /// source file of the panic, shortened to a stable suffix
     pub fn short_file(&self) -> String {
